@@ -42,6 +42,9 @@ FS_EPOCH = 1_500_000_000.0
 logging.getLogger("stepup.core.rpc").setLevel(logging.CRITICAL)
 logging.getLogger("asyncio").setLevel(logging.CRITICAL)
 warnings.filterwarnings("ignore", category=RuntimeWarning)
+# Coroutines of a killed director are dropped without being run to completion; their cleanup
+# clauses then complain about the closed loop when they are garbage-collected.
+sys.unraisablehook = lambda unraisable: None
 
 
 class Deadlock(Exception):
@@ -56,8 +59,12 @@ class HarnessError(Exception):
     """The harness itself is wrong (nondeterminism leak, out-of-range replay choice)."""
 
 
-class Crash(Exception):
-    """Raised by a snapshot hook to kill the director at this point."""
+class Crash(SystemExit):
+    """Raised at a snapshot point to kill the director there.
+
+    A SystemExit subclass: asyncio lets it escape from the running callback, so nothing after
+    the crash point executes except `finally` clauses, none of which touches disk.
+    """
 
 
 # ------------------------------------------------------------------------------------------
@@ -525,6 +532,19 @@ class Sim:
 
         self._patch(DBSession, "__aexit__", aexit)
 
+        from stepup.core import finalize as su_finalize
+
+        orig_try_remove = su_finalize._try_remove
+
+        def try_remove(remove):
+            ok = orig_try_remove(remove)
+            if ok:
+                sim.logev("REMOVED", str(getattr(remove, "__self__", "?")))
+                sim.snap("remove")
+            return ok
+
+        self._patch(su_finalize, "_try_remove", try_remove)
+
         fake_inotify = self.cfg.get("inotify")
         if fake_inotify is not None:
             from stepup.core import watcher as su_watcher
@@ -560,9 +580,13 @@ class Sim:
         return f"{name}({';'.join(parts)})"
 
     def snap(self, tag):
+        if self.crashed:
+            return
         self.snap_count += 1
-        if self.snapshot_hook is not None:
-            self.snapshot_hook(self, tag)
+        if self.snapshot_hook is not None and self.snapshot_hook(self, tag):
+            self.crashed = True
+            self.crash_tag = (self.snap_count, tag)
+            raise Crash()
 
     # -- session -----------------------------------------------------------------------------
     def serve_config(self):
@@ -609,6 +633,8 @@ class Sim:
             self.loop.run_ready()
         except Crash:
             self.crashed = True
+            return True
+        if self.crashed:
             return True
         return self.main.done()
 
